@@ -356,6 +356,7 @@ func runC01(c *kit.Ctx) {
 	// a server that says "the region is not here (any more)" makes the client look the region up again
 	exceptionTableOracle(c)
 	discoverersDetachOverlaps(c)
+	establisherHandoff(c)
 
 	// ---- R3 ---------------------------------------------------------------
 	c.StartRule("R3", "both lookup validators check table and key < stop", 6)
